@@ -60,10 +60,9 @@ ARRAY_OPS = ["Interferometer", "GaussianTransform", "Gaussian", "Ggate"]
 # equivalence() keyword options: only tolerances at or below the default (soundness to 1e-4 still applies) and compare_params=False
 KWARGS = [None, None, None, {"atol": 1e-12}, {"atol": 0.0, "rtol": 0.0}, {"rtol": 1e-12}, {"atol": 1e-9, "rtol": 1e-9}, {"compare_params": False}]
 MEAS = ("MeasureHomodyne", "MeasureHeterodyne")
+# "select_changed": same program, another post-selection value (finding F70, fixed: == and equivalence() ignored select / dark_counts)
 EDITS_M = ["rebuild", "drop_last", "flip_dagger", "param_1e-3", "param_1", "move_mode", "swap_commuting", "swap_overlapping",
-           "reorder_commuting", "sym_scale_1e-9", "sym_scale_1e-3", "sym_scale_1", "sym_source"]
-# AUDIT-FINDING select-ignored: "select_changed" (same program, another post-selection value) is not generated: == and equivalence()
-# report such programs equal/equivalent although the conditional states (and the returned samples) differ - out/audit/C18-select-ignored.json
+           "reorder_commuting", "sym_scale_1e-9", "sym_scale_1e-3", "sym_scale_1", "sym_source", "select_changed"]
 SELECT_EDITS = ["select_changed"]
 
 
